@@ -18,6 +18,7 @@ values, recursive, or too large stay in the list and are analysed on their own a
 import copy
 import json
 import os
+import re as _re_mod
 
 VERIF = os.path.dirname(os.path.dirname(os.path.abspath(__file__)))
 KNOWN = os.path.join(VERIF, "known_fns.json")
@@ -252,6 +253,9 @@ def _fn_values(d):
     return used
 
 
+_GEN2 = _re_mod.compile(r"::<[^<>]*(?:<[^<>]*>[^<>]*)*>")
+
+
 def _similar(a, b):
     """Names of a function before and after a renaming that keeps a recognisable stem
     (`find` / `find_into`, `tree_trace_to_trace` / `into_router_trace` is NOT such a pair)."""
@@ -280,6 +284,19 @@ def undo_renames(d, known):
         cands = [o for o in gone.get(scope, ()) if _similar(o, name)]
         if len(cands) == 1:
             ren[p] = (scope + "::" + cands[0], cands[0])
+    # a method that moved to another impl block / module keeps its type and name: `Leaf::<V>::cache` is gone and
+    # `cache::<impl Leaf<V>>::cache` is new
+    gone_methods = {}
+    for p in known:
+        if p not in present and "::" in p and not p.startswith("<"):
+            gone_methods.setdefault(_GEN2.sub("", p), []).append(p)
+    for f in d["fns"]:
+        p = f["path"]
+        if p in known or p in ren or not f.get("local", True) or f["kind"] != "AssocFn" or not f.get("adt") or f.get("trait"):
+            continue
+        cands = gone_methods.get("%s::%s" % (f["adt"], f["name"]), [])
+        if len(cands) == 1:
+            ren[p] = (cands[0], f["name"])
     # one old name can be claimed by one new function only
     claimed = {}
     for p, (q, _) in ren.items():
